@@ -258,6 +258,17 @@ def parseCOp : List String → Option Custom.Op
     pure (.call { k := k, name := n, hasId := id == "id", params := sh })
   | _ => none
 
+/-- the two-label race ops: `choldq <k>`, `ccallq <k> <hex name> <id|noid> <shape>`, `crelease <k>` -/
+def parseQOp (toks : List String) : Option Custom.QOp :=
+  match toks with
+  | ["choldq", k] => k.toNat?.map .holdq
+  | ["crelease", k] => k.toNat?.map .release
+  | "ccallq" :: rest =>
+    (match parseCOp ("ccall" :: rest) with
+      | some (.call c) => some (.callq c)
+      | _ => none)
+  | _ => (parseCOp toks).map .base
+
 def showCObs : Custom.Obs → String
   | .ack true => "ok"
   | .ack false => "refused"
@@ -304,6 +315,19 @@ def cclauseText (op : Custom.Op) (impl : String) : Custom.Clause → String
     | .ranTwice => s!"C02: the handler of the custom method {name} ran more than once for one call"
     | .unreadable => "C02: unreadable observation"
 
+def showWs (ws : List W) : String := if ws.isEmpty then "-" else ";".intercalate (ws.map showW)
+
+/-- `r=<w1;w2..|-> h=<n>` (canonical text only) -/
+def parseRelease (impl : String) : Option (List W × Nat) :=
+  match field "r" impl, (field "h" impl).bind String.toNat? with
+  | some r, some n =>
+    let ws := if r == "-" then [] else (r.splitOn ";").map parseW
+    if s!"r={showWs ws} h={n}" == impl then some (ws, n) else none
+  | _, _ => none
+
+def queueUpd (qs : List (Nat × List Custom.Call)) (c : Custom.Call) : List (Nat × List Custom.Call) :=
+  qs.map (fun p => if p.1 == c.k then (p.1, p.2 ++ [c]) else p)
+
 /-! ## engine -/
 
 structure DState where
@@ -313,6 +337,8 @@ structure DState where
   pid : String := ""     -- property under check (`property <PID>` record): only its clauses are reported
   cs : Custom.State := {}    -- stream `custom`: the model's server and sessions
   cm : Custom.Mem := {}      -- stream `custom`: the monitor's memory
+  cqs : List (Nat × List Custom.Call) := []   -- the model's held sessions and their queues
+  mq : List (Nat × List Custom.Call) := []    -- the monitor's: holds / queued calls that were ACKNOWLEDGED
 
 def pidTok : PID → String
   | .C02 => "C02"
@@ -341,18 +367,45 @@ def engine : Engine DState where
         let tv := transportVersions f
         ({ d with st := fresh tv, mon := { d.mon with tv := tv } }, { model := s!"sv={showVersions tv}" })
     | _ =>
-      match parseCOp toks with
-      | some op =>
-        (match op with
-          | .call c => if Custom.isStandard c.name then none else some op
-          | _ => some op) |>.elim (d, { model := "bad-op" }) fun op =>
-        let kind := Custom.kindOf d.cs op
-        let (cs', res) := Custom.step d.cs op
-        let obs := parseCObs op impl
-        let cl := match Custom.monitor d.cm op obs with
+      match parseQOp toks with
+      | some qop =>
+        (match qop with
+          | .base (.call c) => if Custom.isStandard c.name then none else some qop
+          | .callq c => if Custom.isStandard c.name then none else some qop
+          | _ => some qop) |>.elim (d, { model := "bad-op" }) fun qop =>
+        let q : Custom.QState := { base := d.cs, queues := d.cqs }
+        let (q', qres) := Custom.qstep q qop
+        let report (c : Option Custom.Clause) (op : Custom.Op) : Option String :=
+          match c with
           | some c => if d.pid == "" || d.pid == pidTok c.pid then some (cclauseText op impl c) else none
           | none => none
-        ({ d with cs := cs', cm := Custom.memNext d.cm op obs }, { model := showCRes kind res, violated := cl })
+        match qop, qres with
+        | .base op, .base res =>
+          let kind := Custom.kindOf d.cs op
+          let obs := parseCObs op impl
+          ({ d with cs := q'.base, cqs := q'.queues, cm := Custom.memNext d.cm op obs },
+           { model := showCRes kind res, violated := report (Custom.monitor d.cm op obs) op })
+        | .holdq k, r =>
+          let mq' := if impl == "ok" && !(d.mq.any (fun (p : Nat × List Custom.Call) => p.1 == k)) then (k, []) :: d.mq else d.mq
+          ({ d with cs := q'.base, cqs := q'.queues, mq := mq' }, { model := if r == Custom.QRes.ok then "ok" else "na" })
+        | .callq c, r =>
+          let mq' := if impl == "queued" then queueUpd d.mq c else d.mq
+          ({ d with cs := q'.base, cqs := q'.queues, mq := mq' }, { model := if r == Custom.QRes.queued then "queued" else "na" })
+        | .release k, r =>
+          let model := match r with
+            | Custom.QRes.released outs =>
+              s!"r={showWs (outs.map (fun (o : Custom.Out) => Custom.wOfAns o.ans))} h={(outs.filter (fun (o : Custom.Out) => o.ran)).length}"
+            | _ => "na"
+          let queued : List Custom.Call := match d.mq.find? (fun (p : Nat × List Custom.Call) => p.1 == k) with
+            | some p => p.2
+            | none => []
+          let cl := if impl == "na" then none else
+            match parseRelease impl with
+            | some (ws, _) => Custom.monitorRelease queued ws
+            | none => some .unreadable
+          ({ d with cs := q'.base, cqs := q'.queues, mq := d.mq.filter (fun (p : Nat × List Custom.Call) => p.1 != k) },
+           { model := model, violated := report cl (.call ((queued.head?).getD ⟨k, "", false, .absent⟩)) })
+        | _, _ => ({ d with cs := q'.base, cqs := q'.queues }, { model := "na" })
       | none =>
       match parseMsg toks with
       | none => (d, { model := "bad-op" })
